@@ -3,6 +3,7 @@ package props
 import (
 	"bytes"
 	"compress/gzip"
+	"io"
 	"net/http"
 	"strconv"
 	"strings"
@@ -222,7 +223,22 @@ func hexHead(b []byte, n int) string {
 	return string(out)
 }
 
+type c20Pending struct {
+	mb      c20Body
+	body    []byte
+	useGzip bool
+	i       int
+	w       c20Witness
+	tag     string
+	res     *http.Response
+	err     error
+}
+
 func c20Run(c *core.Ctx, idx int) {
+	// Four responses are filtered first; their new bodies are read only
+	// afterwards, in another order, the way a proxy streams a body after the
+	// handler has returned while other responses are being filtered.
+	var pend []*c20Pending
 	for k := 0; k < 4; k++ {
 		mb := c20MakeBody(c)
 		body := mb.body
@@ -261,12 +277,18 @@ func c20Run(c *core.Ctx, idx int) {
 			w.Around = hexHead(body[lo:], 32)
 		}
 
-		var out []byte
-		var tag string
-		var res *http.Response
-		var err error
-		if c.Guard("filterHTML", nil, w, func() { out, tag, res, err = proxy.VerifFilterHTML(append([]byte(nil), wire...), hdr) }) {
+		p := &c20Pending{mb: mb, body: body, useGzip: useGzip, i: i, w: w}
+		if c.Guard("filterHTML", nil, w, func() { p.tag, p.res, p.err = proxy.VerifFilterHTMLLazy(append([]byte(nil), wire...), hdr) }) {
 			continue
+		}
+		pend = append(pend, p)
+	}
+	for _, pi := range c.Rng.Perm(len(pend)) {
+		p := pend[pi]
+		mb, body, useGzip, i, w, tag, res, err := p.mb, p.body, p.useGzip, p.i, p.w, p.tag, p.res, p.err
+		var out []byte
+		if err == nil && res != nil && res.Body != nil {
+			out, err = io.ReadAll(res.Body)
 		}
 		c.Eval(1)
 		fail := func(sig, problem string) {
@@ -355,7 +377,7 @@ func init() {
 		ID:    "C20",
 		Level: "exploration",
 		Rule: "per case 4 bodies: ASCII, all 256 byte values or mostly high bytes, plain or gzip-encoded, with 0..4 markers (</head, <link, <style, <script in random letter case) whose first occurrence is placed at 0, early, at 16383/16384, straddling the window, beyond it, or where high-byte padding moves the transcoded offset over the window, with near-markers before it (truncated markers and markers with one byte changed in its case bit, high bit or value, e.g. 0x1c for '<'); " +
-			"oracle on bytes: output == body[:i]+tag+body[i:] when the marker's transcoded offset is inside the window, output == body when no marker starts before byte 16384, either exact form in between; Content-Length == len(output), Content-Encoding removed, tag has the content-script form (hook VerifFilterHTML); non-trivial = body with a marker; distinct by body head, marker offset and encoding",
+			"oracle on bytes: output == body[:i]+tag+body[i:] when the marker's transcoded offset is inside the window, output == body when no marker starts before byte 16384, either exact form in between; Content-Length == len(output), Content-Encoding removed, tag has the content-script form (hook VerifFilterHTMLLazy: the four responses of a case are filtered first and their bodies are read afterwards in another order); non-trivial = body with a marker; distinct by body head, marker offset and encoding",
 		Assumptions: []string{
 			"the 16 KiB window is measured by the code on the Latin-1 to UTF-8 transcoded text; between the byte and the transcoded bound either outcome is accepted",
 		},
